@@ -85,7 +85,7 @@ def exec_lines(real_bin, shim_bin, lines, wd):
         res['real'] = dialrun.exec_real(real_bin, os.path.join(wd, 'real'), 1, 'quick', replay=f)
     return res
 
-def judge_lines(res, admit, slack_us):
+def judge_lines(res, admit, slack_us, strict_bound=False):
     problems, n = [], 0
     if 'scripted' in res:
         r = dialrun.judge_scripted(res['scripted'])
@@ -93,6 +93,8 @@ def judge_lines(res, admit, slack_us):
     if 'real' in res:
         r = dialrun.judge_real(res['real'], admit, slack_us)
         problems += r['problems']; n += r['dials']
+        if strict_bound:
+            problems += [('impl-violates-spec', 'dial returned %d us after its timeout (allowed %d us): %s' % (o, a, l), [q]) for o, a, l, q in r['bound_candidates']]
     return problems, n
 
 def harness_stage(wd, seed, b):
@@ -167,6 +169,35 @@ def run(rep, prop=PROP):
         rres = list(ex.map(lambda o: dialrun.judge_real(o, admit, b['slack_us']), st['real']))
 
     rep.cov['stage_seconds'] = dict(st['t'], proof_stage=t_proof, parallel_part=t_par, judge=round(time.time() - t0, 1))
+    # a scripted scenario that "did not return" is re-run once on its own: only a hang that shows again is reported
+    hung = [p for p in problems if p[0] == 'impl-violates-spec' and '| impl=hung' in p[1]]
+    if hung and shim_bin:
+        res = exec_lines(None, shim_bin, hung[0][2], os.path.join(wd, 'confirm-hang'))
+        r2 = dialrun.judge_scripted(res['scripted']) if 'scripted' in res else {'problems': hung[:1]}
+        if not any('| impl=hung' in p[1] for p in r2['problems']):
+            problems = [p for p in problems if p not in hung]
+            rep.notes.append('scripted scenario timed out once but returned when re-run on its own (machine load): ' + hung[0][2][0][:200])
+    # wall-clock bound: a dial that overshot its timeout by more than slack + measured scheduling noise is re-run
+    # three times on its own; only an overshoot that shows every time is reported (a loaded machine is not a defect)
+    cands = sorted((c for r in rres for c in r['bound_candidates']), reverse=True)
+    inconclusive = []
+    for over, allowed, line, req in cands[:2]:
+        confirmed = 0
+        for k in range(3):
+            res = exec_lines(real_bin, None, [req], os.path.join(wd, 'confirm%d' % k))
+            r2 = dialrun.judge_real(res['real'], admit, b['slack_us']) if 'real' in res else {'bound_candidates': [], 'problems': []}
+            if r2['bound_candidates'] or any(p[0] == 'impl-violates-spec' for p in r2['problems']):
+                confirmed += 1
+            else:
+                break
+        if confirmed == 3:
+            problems.append(('impl-violates-spec', 'dial returned %d us after its timeout (allowed: slack %d us + 4 x scheduling jitter = %d us), confirmed in 3 re-runs: %s'
+                             % (over, b['slack_us'], allowed, line), [req]))
+        else:
+            inconclusive.append('overshoot %d us (allowed %d) not confirmed by re-running: %s' % (over, allowed, line[:200]))
+    if inconclusive:
+        rep.notes.append('elapsed bound: ' + ' ; '.join(inconclusive[:3]))
+    rep.cov['real_max_scheduling_jitter_us'] = max([r['max_jitter_us'] for r in rres] or [0])
     hist, branches, outcomes, classes = {}, {}, {}, set()
     scen = 0; samples = []
     for r in sres:
@@ -246,7 +277,7 @@ def replay(rep, path):
     shim_bin, out2, missing = dialrun.build_shim_harness(os.path.join(wd, 'shim'))
     common.lake_build(['npdriver'])
     lines = [l for l in open(path).read().split('\n') if l and not l.startswith('#')]
-    ps, n = judge_lines(exec_lines(real_bin, shim_bin, lines, wd), dialrun.admitted_sets(), budgets('quick', False)['slack_us'])
+    ps, n = judge_lines(exec_lines(real_bin, shim_bin, lines, wd), dialrun.admitted_sets(), budgets('quick', False)['slack_us'], strict_bound=True)
     rep.cov['evaluations'] = n
     for p in ps:
         print('REPLAY: %s: %s' % (p[0], p[1][:600]))
